@@ -155,15 +155,19 @@ func RunVerifyCase(cs Case, cfg VerifyCfg) Result {
 			return res
 		}
 		n := probe.MutRegionBits
+		bitsPer := cfg.BitsPer
+		if bitsPer == 0 && len(cs.W) > 1 {
+			bitsPer = 8 // every bit is swept for the mutation alone; combined with a second deviation a sample suffices
+		}
 		if cfg.OnlyBit != nil {
 			variants = append(variants, variant{*cfg.OnlyBit, -1})
-		} else if cfg.BitsPer == 0 || cfg.BitsPer >= n {
+		} else if bitsPer == 0 || bitsPer >= n {
 			for b := 0; b < n; b++ {
 				variants = append(variants, variant{b, -1})
 			}
 		} else {
 			// seeded, evenly spread with a seeded offset, always including first and last bit
-			step := n / cfg.BitsPer
+			step := n / bitsPer
 			off := int(seed % int64(step+1))
 			variants = append(variants, variant{0, -1}, variant{n - 1, -1})
 			for b := off; b < n; b += step {
